@@ -49,6 +49,21 @@ func c09UsedFiles(c *harness.Check, cs usedFaultCase) string {
 		comp = fill(cs.Line-1) + cs.Fault + "\n<c>{{ v }}@slot</c>"
 	case "slot-body":
 		page = "@use(\"~main\")@insert(\"body\")@component(\"comp\", {v: 1})\n@slot " + fill(cs.Line-1) + cs.Fault + "@end\n@end;@end"
+	case "insert-expression", "component-argument", "second-insert-expression":
+		// the fault as the value of a short-form insert or of a component argument (statement-shaped faults go into an array's length)
+		expr := "[1].len()"
+		if strings.HasPrefix(cs.Fault, "{{ ") {
+			expr = strings.TrimSuffix(strings.TrimPrefix(cs.Fault, "{{ "), " }}")
+		}
+		switch cs.Where {
+		case "insert-expression":
+			page = "@use(\"~main\")" + fill(cs.Line-1) + "@insert(\"body\", " + expr + ")"
+		case "second-insert-expression":
+			layout = "<html>@reserve(\"head\")|@reserve(\"body\")</html>"
+			page = "@use(\"~main\")@insert(\"head\", 1)" + fill(cs.Line-1) + "@insert(\"body\", " + expr + ")"
+		default:
+			page = "@use(\"~main\")@insert(\"body\")" + fill(cs.Line-1) + "@component(\"comp\", {v: " + expr + "});@end"
+		}
 	default:
 		page = "@use(\"~main\")@insert(\"body\")" + fill(cs.Line-1) + cs.Fault + "@end"
 	}
@@ -67,11 +82,20 @@ func c09UsedFiles(c *harness.Check, cs usedFaultCase) string {
 			failure = "harness: the directory does not load: " + lerr.Error()
 			return
 		}
-		_, serr := tpl.String("page", map[string]any{"zero": 0})
+		out, serr := tpl.String("page", map[string]any{"zero": 0})
 		w := httptest.NewRecorder()
 		rerr := tpl.Response(w, "page", map[string]any{"zero": 0})
 		if (serr == nil) != (rerr == nil) {
 			failure = fmt.Sprintf("String returns %v, Response returns %v", serr, rerr)
+			return
+		}
+		// each of the faults is one the statement lists: it is reported as an error, not rendered
+		if strings.HasPrefix(cs.Fault, "{{ ") || !strings.HasSuffix(cs.Where, "-expression") && cs.Where != "component-argument" {
+			if serr == nil {
+				failure = fmt.Sprintf("the fault %s was not reported: String returned %q and no error", cs.Fault, out)
+			} else if out != "" {
+				failure = fmt.Sprintf("error together with output %q", out)
+			}
 		}
 	})
 	if pi != nil {
@@ -86,10 +110,10 @@ func c09UsedFiles(c *harness.Check, cs usedFaultCase) string {
 func TestC09_FaultsInUsedFiles(t *testing.T) {
 	faults := []string{"{{ 10 % zero }}", "{{ 1 / zero }}", "{{ zzUnknown }}", "{{ zero.nosuch }}", "@each(x in zero)a@end", "{{ \"s\".zzNoFn() }}", "{{ [1][9].x }}"}
 	c := harness.New(t, "C09", "faults-in-used-files",
-		fmt.Sprintf("%d run-time faults on line 1..12 of the layout, of a component, of a slot body or of an insert of a page whose own file has 1..14 lines (so the fault's line may not exist in the page's file), rendered through String and Response with debug on / off and no, a working, a failing or a missing custom error page: both return (no panic), and Response fails exactly when String fails. Exhaustive. Non-trivial: the fault stands in a used file on a line beyond the page's last line. Distinct by construction.", len(faults)))
+		fmt.Sprintf("%d run-time faults on line 1..12 of the layout, of a component, of a slot body or of an insert (block form; as the value of a short-form insert, first or second; as a component argument) of a page whose own file has 1..14 lines (so the fault's line may not exist in the page's file), rendered through String and Response with debug on / off and no, a working, a failing or a missing custom error page: both return (no panic), String returns an error and no output, and Response fails exactly when String fails. Exhaustive. Non-trivial: the fault stands in a used file on a line beyond the page's last line. Distinct by construction.", len(faults)))
 	defer c.Finish()
 	idx := 0
-	for _, where := range []string{"layout", "component", "slot-body", "insert"} {
+	for _, where := range []string{"layout", "component", "slot-body", "insert", "insert-expression", "second-insert-expression", "component-argument"} {
 		for line := 1; line <= 12; line++ {
 			for _, pageLines := range []int{3, 5, 14} {
 				for fi, fault := range faults {
@@ -114,5 +138,5 @@ func TestC09_FaultsInUsedFiles(t *testing.T) {
 		}
 	}
 	textwire.VerifReset()
-	c.ExhaustivePart("4 places x 12 lines x 3 page lengths x 7 faults x debug on (all) / off (a third) x 4 error page settings")
+	c.ExhaustivePart("7 places x 12 lines x 3 page lengths x 7 faults x debug on (all) / off (a third) x 4 error page settings")
 }
